@@ -46,7 +46,7 @@ are each at most `average + variation` long and — when the input is non-empty 
 theorem C12_chunk (avg var : Int) (h : SlicerOK avg var) :
     ∀ (fuel : Nat) (s e : Int) (draws : List Int), s ≤ e → e - s < fuel →
       ∃ offs rest, slicerChunk avg var fuel s e draws = .ok offs rest ∧ Chain s e offs ∧
-        (∀ p ∈ offs, p.2 - p.1 ≤ avg + var ∧ (s < e → p.1 < p.2)) := by
+        (∀ p ∈ offs, p.2 - p.1 ≤ avg + var ∧ (s < e → p.1 < p.2) ∧ p.1 ≤ p.2) := by
   obtain ⟨hv0, hva, hw⟩ := h
   have hwrap : wrap64 (var * 2) = var * 2 := wrap64_id _ (by omega) hw
   intro fuel
@@ -60,21 +60,21 @@ theorem C12_chunk (avg var : Int) (h : SlicerOK avg var) :
       intro p hp
       simp only [List.mem_singleton] at hp
       subst hp
-      exact ⟨by simp; omega, fun h => h⟩
+      exact ⟨by simp; omega, fun h => h, hse⟩
     · simp only [hbase, if_false]
       have hsize : avg + var < e - s := by omega
       have htd : Int.tdiv (e - s) 2 = (e - s) / 2 := Int.tdiv_eq_ediv_of_nonneg (by omega)
       have finish : ∀ mid ds, s < mid → mid < e → ∃ l r1 r r2,
           slicerChunk avg var fuel s mid ds = .ok l r1 ∧ slicerChunk avg var fuel mid e r1 = .ok r r2 ∧
-          Chain s e (l ++ r) ∧ (∀ p ∈ l ++ r, p.2 - p.1 ≤ avg + var ∧ (s < e → p.1 < p.2)) := by
+          Chain s e (l ++ r) ∧ (∀ p ∈ l ++ r, p.2 - p.1 ≤ avg + var ∧ (s < e → p.1 < p.2) ∧ p.1 ≤ p.2) := by
         intro mid ds hm1 hm2
         obtain ⟨l, r1, hl, hcl, hpl⟩ := ih s mid ds (by omega) (by omega)
         obtain ⟨r, r2, hr, hcr, hpr⟩ := ih mid e r1 (by omega) (by omega)
         refine ⟨l, r1, r, r2, hl, hr, chain_append hcl hcr, ?_⟩
         intro p hp
         rcases List.mem_append.mp hp with hp | hp
-        · exact ⟨(hpl p hp).1, fun _ => (hpl p hp).2 hm1⟩
-        · exact ⟨(hpr p hp).1, fun _ => (hpr p hp).2 hm2⟩
+        · exact ⟨(hpl p hp).1, fun _ => (hpl p hp).2.1 hm1, (hpl p hp).2.2⟩
+        · exact ⟨(hpr p hp).1, fun _ => (hpr p hp).2.1 hm2, (hpr p hp).2.2⟩
       rw [hwrap, htd]
       by_cases hv : var > 0
       · have hnw : ¬ (var * 2 ≤ 0) := by omega
@@ -97,7 +97,7 @@ theorem C12_chunk (avg var : Int) (h : SlicerOK avg var) :
 recursion of the Go code, is unreachable under the guard). -/
 theorem C12_terminates (avg var : Int) (h : SlicerOK avg var) (size : Nat) (draws : List Int) :
     ∃ offs rest, slicerChunk avg var (slicerFuel size) 0 size draws = .ok offs rest ∧
-      Chain 0 size offs ∧ (∀ p ∈ offs, p.2 - p.1 ≤ avg + var ∧ ((0:Int) < size → p.1 < p.2)) := by
+      Chain 0 size offs ∧ (∀ p ∈ offs, p.2 - p.1 ≤ avg + var ∧ ((0:Int) < size → p.1 < p.2) ∧ p.1 ≤ p.2) := by
   have := C12_chunk avg var h (slicerFuel size) 0 size draws (by omega) (by unfold slicerFuel; omega)
   simpa using this
 
